@@ -23,13 +23,14 @@ ASSUMPTIONS = ['date formats are tried in the documented order (dd-mmm-yy, dd-mm
 CHUNK = 16
 
 OPT = ['$TIMESTEP', 'TIMETICKS', '$BTIM', '$ETIM', '$DATE', 'PnV', 'PnG', 'PnS', 'BDWORD', 'CYTEK']
-CREATORS = [None, 'CellQuest Pro 5.2', 'FlowJoCollectorsEdition 7.5', 'OtherSoft 1.0']
+CREATORS = [None, 'CellQuest Pro 5.2', 'FlowJoCollectorsEdition 7.5', 'OtherSoft 1.0', 'BD CellQuest Pro 6.0', 'Mac FlowJoCollectorsEdition 7']
 TIMECH = [None, 'Time', 'TIME', 'time', 'two']
 GOOD = {'$TIMESTEP': '0.01', 'TIMETICKS': '200', '$BTIM': '10:05:07', '$ETIM': '10:06:10.25', '$DATE': '03-OCT-2023'}
 TIMEFMT = ['10:05:07', '10:05:07:30', '10:05:07.25', '23:59:59:59', '00:00:00.0', '7:5:3']
 DATEFMT = [None, '03-OCT-23', '03-Oct-2023', '23-Oct-03', '2023-Oct-03', '31-dec-99', '1-Jan-2001']
 BAD_TIME = ['abc', '10:05', '1:2:3:4:5', '25:61:61', '10:05:07:99', ' ', '10:05:xx', '10:05:07:zz', '10:05:07.', '-1:00:00',
-            '10:05:07:1e999', '10:05:07:inf', '10:05:07:-Infinity', '10:05:07:nan', '10:05:07:-3', '10:05:07:60', '1e1:05:07', '10:05:07.1e3']
+            '10:05:07:1e999', '10:05:07:inf', '10:05:07:-Infinity', '10:05:07:nan', '10:05:07:-3', '10:05:07:60', '1e1:05:07', '10:05:07.1e3',
+            '20:15.5:43', '20.5:15:43', '1.5:2:3', '12:30.25:10', '10.0:05:07', '10:05.:07']
 BAD_DATE = ['abc', '32-OCT-2023', '03-OKT-2023', ' ', '2023/10/03', '03-10-2023']
 BAD_NUM = ['abc', ' ', '1,2', '1.2.3', '0x10']
 NCH = 3
